@@ -16,6 +16,7 @@ func init() {
 		Quick:      all("./encoding/protojson"),
 		Thorough:   all("./..."),
 		Run: func(c *Ctx) {
+			c.ruleGenDetMarshal("R-ANY-DET-MARSHAL", []string{"encoding/protojson"}, map[string]string{}, 1)
 			c.ruleWKTTable("R-WKT-TABLE")
 			c.ruleResolverProp("R-RESOLVER-PROP", []string{"encoding/protojson"}, 3)
 			c.ruleNameAccessorPair("R-NAME-ACCESSOR-PAIR", "encoding/protojson", "encoding/protojson.encoder.marshalMessage", 1)
